@@ -8,13 +8,17 @@
 (* directory (tree made / not made), e.g. mkdir; verify --strict; mkdir.   *)
 (*                                                                         *)
 (* inv = [sub, format, massive, file, dryrun, exts, target, strict,        *)
-(*        stray, unknown, doc, stdout, mtimeout]                           *)
+(*        stray, unknown, doc, stdout, mtimeout, watch]                    *)
 (*   sub    \in {"output","mkdir","verify","template"}                     *)
 (*   format \in {"", "json","yaml","toml","bad"}                           *)
 (*   file   \in {"stdin","dash","existing","missing"}                      *)
 (*   doc    \in {"wf","malformed","empty","hostile","dot"} (hostile: a name *)
 (*            with '/': fine for output, invalid for mkdir/verify/dry-run) *)
 (*   stdout \in {"pipe","closed","full"}                                   *)
+(*   watch: output --watch renders the file, then again whenever its       *)
+(*          modification time changes, until it is killed: no exit status  *)
+(*          (why = "watching"); library failures are printed over, not     *)
+(*          reported; with stdin input the flag is ignored                 *)
 (* "ExitZeroOnUsageError" \in Dev: main prints a non-ExitCoder error and   *)
 (* returns (exit status 0), as built.                                      *)
 (***************************************************************************)
@@ -59,7 +63,9 @@ WritesStdout(inv) == Dispatch(inv).op \in {"output", "template"} /\ inv.doc # "e
 
 Outcome(inv, m) ==
   IF UsageError(inv) THEN [exit0 |-> "ExitZeroOnUsageError" \in Dev, called |-> FALSE, made |-> m, why |-> "usage"]
-  ELSE IF OpenError(inv) THEN [exit0 |-> FALSE, called |-> FALSE, made |-> m, why |-> "open"]
+  ELSE IF OpenError(inv) THEN [exit0 |-> FALSE, called |-> FALSE, made |-> m, why |-> "open"]   \* (--watch: at the first tick)
+  ELSE IF inv.sub = "output" /\ inv.watch /\ inv.file = "existing"
+       THEN [exit0 |-> FALSE, called |-> TRUE, made |-> m, why |-> "watching"]
   ELSE LET res == LibResult(inv, m)
            \* output refused by stdout: only /dev/full refuses; a CLOSED descriptor 1 is re-opened on
            \* /dev/null by the Go runtime at start-up, so every write is accepted
